@@ -178,7 +178,7 @@ def _compare_tree(settings, dirs, excluded, out, recursive, auto_ex, has_prefix,
 
 
 def check(present: List[bool], excl: List[bool], rev: List[bool], excl_root: bool, recursive: bool, auto_ex: bool,
-          has_prefix: bool, sep2: bool, out_i: int, ext_t: bool, ext_m: bool, which: int, rev2: List[bool], cwd2: bool) -> bool:
+          has_prefix: bool, sep2: bool, out_i: int, ext_t: bool, ext_m: bool, which: int, rev2: List[bool], cwd2: bool, relv: bool, relv2: bool) -> bool:
     """
     pre: _wf(present, excl, rev, excl_root, auto_ex) or (MODE == "closure" and _wf_root(present, excl, rev, excl_root, auto_ex))
     pre: _fixed(dict(recursive=recursive, auto_ex=auto_ex, has_prefix=has_prefix, sep2=sep2, out_i=out_i, ext_t=ext_t, ext_m=ext_m, excl_root=excl_root))
@@ -191,7 +191,9 @@ def check(present: List[bool], excl: List[bool], rev: List[bool], excl_root: boo
     out = None if MODE == "stdout" else OUTS[out_i]
     settings = _settings(out, recursive, auto_ex, has_prefix, sep2, ext_t, ext_m)
     VFS.reset(dirs, excluded)
-    args = dict(present=present, excl=excl, rev=rev, excl_root=excl_root, recursive=recursive, auto_ex=auto_ex,
+    VFS.rel_verdict = relv        # read only if the code under test asks the matcher about a non-absolute path
+    VFS.rel_verdict2 = relv2
+    args = dict(relv=relv, relv2=relv2, present=present, excl=excl, rev=rev, excl_root=excl_root, recursive=recursive, auto_ex=auto_ex,
                 has_prefix=has_prefix, sep2=sep2, out_i=out_i, ext_t=ext_t, ext_m=ext_m, which=which, rev2=rev2, cwd2=cwd2)
     if MODE in ("tree", "stdout"):
         _run(BASE, settings)
